@@ -21,12 +21,20 @@ Allowed ==
     \/ /\ e.ev = "srv"
        /\ e.replies = 1 => /\ e.len <= ServerLimit(e.proto, e.adv)
                            /\ e.decoded /\ e.leftover = 0
+                           \* "TC set whenever a record was dropped": the whole RRset is the answer
+                           /\ (~e.unencodable /\ e.answers < e.zone_records) => e.tc
+    \* a response built by a handler that set TC itself: "... and otherwise unchanged"
+    \/ /\ e.ev = "srvtc"
+       /\ e.replies = 1 => /\ e.len <= ServerLimit(e.proto, e.adv)
+                           /\ e.decoded /\ e.leftover = 0
+                           /\ e.answers <= e.given
+                           /\ e.tc = (e.tcIn \/ e.answers < e.given)
 
 Failed ==
     IF e.ev = "enc" /\ e.result = "ok"
     THEN [withinLimit |-> C03_WithinLimit(e.obs), noLeftover |-> C03_NoLeftover(e.obs),
           counts |-> C03_Counts(e.obs), prefix |-> C03_Prefix(e.obs), tc |-> C03_TC(e.obs)]
-    ELSE IF e.ev = "srv" THEN [limit |-> ServerLimit(e.proto, e.adv)] ELSE [none |-> TRUE]
+    ELSE IF e.ev \in {"srv", "srvtc"} THEN [limit |-> ServerLimit(e.proto, e.adv)] ELSE [none |-> TRUE]
 
 Matched == Allowed
 Reject == ~Allowed /\ PrintT(<<"MISMATCH", ToJson([case |-> e.case, line |-> l, event |-> e, checks |-> Failed])>>)
